@@ -53,6 +53,23 @@ def check_case(case, ctx):
     limit = case["limit"]
     L = plot.nlev - 1 if limit is None else limit
     p, pcls = slicegen.resolve_position(plot, cn, case["pos"], L)
+    if pcls in ("frac", "gap", "face", "boxface") and case["pos"]["index"] % 3 == 0:
+        # the position given as a Python int (scripts write pos=1): an integer strictly inside the domain that is, for every
+        # level, exactly on a cell centre or at least 0.05 cells away from every cell centre (the generator's own rule)
+        import math as _m
+        glo, ghi = plot.geo_lo[cn], plot.geo_hi[cn]
+        cands = [q for q in range(int(_m.floor(glo)) + 1, int(_m.ceil(ghi))) if glo < q < ghi][:64]
+
+        def fine(q):
+            for l in range(plot.nlev):
+                t = (q - glo) / plot.dx[l][cn] - 0.5
+                fr = abs(t - round(t))
+                if fr != 0.0 and fr < 0.05:
+                    return False
+            return True
+        cands = [q for q in cands if fine(q)]
+        if cands:
+            p, pcls = cands[case["pos"]["index"] % len(cands)], "integer"
     ctx.label(*labs, "pos:" + pcls, f"normal:{cn}", "mode:" + case["mode"])
     if plot.payload.get("r_specials"):
         ctx.label("R-with-inf/huge/denormal-samples")
